@@ -301,8 +301,21 @@ fn restored_bisim(rep: &mut Report) {
                         Ok(())
                     };
                     let connect = rc::encode(&ConnProf { rm, ..ConnProf::basic(false) }.ap(ver), 2);
-                    let (lu, _) = u.recv_all(&connect);
+                    let (mut lu, _) = u.recv_all(&connect);
                     let (lf, _) = f.recv_all(&connect);
+                    // the adoption step itself: the auto-detecting server held the identifiers of the entries of
+                    // the other version until now (a fixed-version server never took them) and announces exactly
+                    // their release (C08; in no particular order), ahead of what the fixed-version server returns
+                    let mut other_ids: Vec<u32> = ex2.iter().map(|i| kinds2[*i]).filter(|k| k.2 != ver).map(|k| k.1).collect();
+                    other_ids.sort();
+                    if let Some(first) = lu.first_mut() {
+                        let k = first.iter().take_while(|e| matches!(e, Ev::Released(_))).count();
+                        let mut announced: Vec<u32> = first.drain(..k).filter_map(|e| if let Ev::Released(x) = e { Some(x) } else { None }).collect();
+                        announced.sort();
+                        if announced != other_ids {
+                            return Err(("adoption-announcements".into(), format!("at the adopting CONNECT the auto-detecting server announces the release of {announced:?}; the entries of the other version it drops have the identifiers {other_ids:?}")));
+                        }
+                    }
                     cmp("recv CONNECT".into(), lu, lf, &u, &f)?;
                     if u.vacancy() != f.vacancy() {
                         return Err(("vacancy".into(), format!("after the CONNECT get_receive_maximum_vacancy_for_send() is {:?} on the auto-detecting server, {:?} on the fixed-version one", u.vacancy(), f.vacancy())));
